@@ -350,3 +350,9 @@ def run(M, rep, tier, only=None):
                    technique="keyword argument of every unlink on the entity's own group, all paths (shared with C04.R3)")
     from . import c04
     c04.role_link_rule(M, rep, R10, ctx)
+
+    # ---- R11 (shared with C10.R7): what create_property leaves behind is what was asked for, not the creation placeholder
+    R11 = rep.rule("C02.R11", "a created property holds the values it was given (none for a bare DataType), on every creating path", floor=1,
+                   technique="must-follow on all abstract paths of Section.create_property (shared with C10.R7)")
+    from . import c10
+    c10.create_property_assigns(M, rep, R11)
